@@ -66,10 +66,13 @@ func (a *vAdv) sentType(t uint8) bool {
 
 // The device sends ProveDevice (and so starts depending on the peer) only to a peer
 // that presented a voucher binding to this device and proved the last entry's key.
-func VerifC01_TO2UntilProveDevice_P256() { vTO2UntilProveDevice(vcP256) }
-func VerifC01_TO2UntilProveDevice_P384() { vTO2UntilProveDevice(vcP384) }
+func VerifC01_TO2UntilProveDevice_P256() { vTO2UntilProveDevice(vcP256, false) }
+func VerifC01_TO2UntilProveDevice_P384() { vTO2UntilProveDevice(vcP384, false) }
 
-func vTO2UntilProveDevice(kind int) {
+// C10: the same peer-message grammar must never crash the device's TO2 client
+func VerifC10_TO2ClientVerifyOwner() { vTO2UntilProveDevice(vcP256, true) }
+
+func vTO2UntilProveDevice(kind int, nopanic bool) {
 	verif.Bound("C01", "device key P-256/P-384; peer messages ProveOVHdr + 0..1 (quick) / 0..2 (thorough) OVNextEntry; per path at most 2 (quick) / 3 (thorough) structural deviations from the honest shape; all values (header fields, MACs, hashes, keys, nonces, signatures) symbolic; rendezvous blob absent or present; transport stops at ProveDevice")
 	verif.Expect("accepted")
 	verif.Expect("not accepted")
@@ -203,7 +206,7 @@ func vTO2UntilProveDevice(kind int) {
 
 	var cred *DeviceCredential
 	var terr error
-	panicked, _ := verif.Caught(func() { cred, terr = TO2(context.Background(), adv, to1d, cfg) })
+	panicked := vRun(nopanic, func() { cred, terr = TO2(context.Background(), adv, to1d, cfg) })
 	if !adv.sentType(protocol.TO2ProveDeviceMsgType) {
 		verif.Assert(panicked || (cred == nil && terr != nil), "a peer that is not accepted makes TO2 return an error and no credential")
 		verif.Reached("not accepted")
